@@ -51,7 +51,10 @@ Wraps(x) == {
   \* keys and values emitted separately, keys not in order, a key repeated
   [k |-> "mapkv", kv |-> << <<K("z"), S0>>, <<K("a"), x>>, <<K("m"), S0>>, <<K("a"), S0>>, <<K("b"), x>> >>],
   [k |-> "struct", name |-> S("S"), fields |-> << <<S("f"), x>> >>], [k |-> "struct", name |-> S("S"), fields |-> << <<S("z"), S0>>, <<S("a"), x>> >>],
-  [k |-> "struct_variant", name |-> S("E"), variant |-> S("SV"), fields |-> << <<S("f"), x>> >>] }
+  [k |-> "struct_variant", name |-> S("E"), variant |-> S("SV"), fields |-> << <<S("f"), x>> >>],
+  \* skipped fields (before, between and after the present ones)
+  [k |-> "struct", name |-> S("S"), fields |-> << <<S("gone"), [k |-> "skipped"]>>, <<S("z"), S0>>, <<S("m"), [k |-> "skipped"]>>, <<S("a"), x>>, <<S("b"), [k |-> "skipped"]>> >>],
+  [k |-> "struct_variant", name |-> S("E"), variant |-> S("SV"), fields |-> << <<S("f"), x>>, <<S("g"), [k |-> "skipped"]>> >>] }
 
 Init == t \in Scalars /\ d = 0
 Next == d < Depth /\ d' = d + 1 /\ \E x \in Wraps(t) : t' = x
